@@ -79,6 +79,14 @@ CORPUS = [
 ]
 
 
+ENOUGH = 12   # concrete failing inputs in hand: stop exploring (a breaking change can make every further case
+              # slower or larger, e.g. state leaking from one read into the next and doubling each time)
+
+
+def enough(res):
+    return len(res.violations) >= ENOUGH
+
+
 def run_corpus(ctx, res, batches):
     for i, (spec, cfg) in enumerate(CORPUS):
         viol, info = C.cycle(spec, cfg, ctx.tmp / ('c%d' % i), record=ctx.model_ok)
@@ -272,6 +280,7 @@ def flush(res, batches, ctx):
 def run_generated(ctx, res, n, facet, batches, record=True):
     rng = ctx.rng(facet)
     for i in range(n):
+        if enough(res): break
         cfg = G.gen_cfg(rng)
         spec = G.gen_spec(rng, cfg)
         cfg = G.fix_cfg(cfg, spec)
@@ -308,6 +317,7 @@ def run_shipped(ctx, res, batches, big=True):
     from fixed_format_file import fortran_read_function
     base = core.REPO / DATA
     for f, m, fort in SHIPPED:
+        if enough(res): break
         size = (base / f).stat().st_size
         if size > 1000000 and not big:
             continue
@@ -337,6 +347,7 @@ def run_fortran(ctx, res, n, batches):
     import t2data as T
     rng = ctx.rng('fortran_writer')
     for i in range(n):
+        if enough(res): break
         cfg = {'flavour': 'TOUGH2', 'mesh': 'in', 'xp': None, 'echo': None}
         spec = FW.fortranise(G.gen_spec(rng, cfg))
         if rng.random() < 0.3: spec['plusplus'] = True
